@@ -1,10 +1,11 @@
-(* Position 15 (e_early) of the REPAIRED Spec.p_step (the accepted-completion rule restored, 2026-09-23) on the model's
-   own traces: REFUTED AGAIN, by another mechanism.  This file depends only on Spec.v / Corr.v.
+(* Position 15 (e_early) of Spec.p_step on the model's own traces, second round (2026-09-23).  Depends only on Spec.v / Corr.v.
 
-   The monitor looks at the operation list of the task a worker holds only at the worker's re-requests; it recognises "the
-   same task" by a shared operation id between the list stored at the previous re-request and the list in the pre dump of
-   this one.  Consecutive operation lists of a live task intersect, but the lists at two re-requests need not: in between,
-   in-flight deduplication attaches a new operation and the no-waiter clean-up removes the old one.
+   HISTORY.  The p_step that had the accepted-completion rule restored (first round, ProofsRetry1.v) was refuted again, position
+   15 only, by rw7_evs below.  That monitor looked at the operation list of the task a worker holds only at the worker's
+   re-requests; it recognised "the same task" by a shared operation id between the list stored at the previous re-request
+   and the list in the pre dump of this one.  Consecutive operation lists of a live task intersect, but the lists at two
+   re-requests need not: in between, in-flight deduplication attaches a new operation and the no-waiter clean-up removes
+   the old one.
 
    rw7_evs (11 events, retry count 2, one size class, no-waiter time-out 10, worker time-out 20):
      0 register; 1 worker w parks; 2 Execute (call 2): task 0 / operation 0 handed to w; 3 the parked call is told (t = 4)
@@ -12,18 +13,18 @@
      5 Execute of the same digest, other invocation (call 4): operation 1 attached to task 0       operations [0; 1]
      6 call 2 is cancelled; 7 it leaves (t = 8): operation 0 has no waiter, removal armed at 18
      8 a read-only call at t = 19: operation 0 is removed                                           operations [1]
-     9 w asks again (t = 20): stored [0] shares nothing with [1], the monitor restarts at 0;
+     9 w asks again (t = 20): stored [0] shared nothing with [1], that monitor restarted at 0;
        the model counts 1 < 2 and tells it again                              t_retry = 2   m_reissue[w] = ([1], 1)   <- drift
-    10 w asks again (t = 21): the model has reached the limit: INTERNAL; the monitor reads 1 <> 2:
+    10 w asks again (t = 21): the model has reached the limit: INTERNAL; that monitor read 1 <> 2:
        "C06:task-failed-before-retry-limit".
    No panic; call ids fresh; learner ids 1, 2; no kill; selector index 0 of one size class.
 
-   Candidate repair, evidence only ([rt_step true]): follow the task at every event, as m_terms does with term_track: after
-   the step every entry (w, (ops0, n)) becomes (w, (ops', n)) if w holds ops' in the post dump and ops0 shares an operation
-   with ops', and is dropped otherwise.  (The accepted-completion rule is still needed: the retried task handed back to
-   the reporting call has the same operations.)  With it the stored list is always the list in the dump, and the
-   invariant to prove becomes: an entry (ops0, n) of w means w holds an uncompleted task with exactly these operations and
-   t_retry = n; no entry means t_retry = 0. *)
+   Spec.p_step was repaired with the rule proposed here ([rt_track]): after every event each entry (w, (ops0, n)) becomes
+   (w, (ops', n)) if w holds ops' in the post dump and ops0 shares an operation with ops', and is dropped otherwise, as
+   m_terms does with term_track.  (The accepted-completion rule stays: the retried task handed back to the reporting call
+   has the same operations.)  The stored list is now always the list in the dump.  rw7_evs is accepted by the whole p_step
+   and kept as a regression; [rt_step true] is a copy of the bookkeeping of the current p_step (rt_faithful_on_rw7),
+   [rt_step false] the one of the second round. *)
 From VF Require Import Sched.Spec Sched.Corr.
 Open Scope Z_scope.
 
@@ -67,20 +68,18 @@ Lemma rw7_outputs : snd (run (init rw7_cfg 0) rw7_evs) =
    [OSync 6 (DExec 5 false 100 3 []) 30]; [OGhost (GAbandoned 1)]].
 Proof. vm_compute. reflexivity. Qed.
 
-(* the whole monitor: silent for ten steps, then the complaint of position 15 *)
+(* the whole current monitor accepts every step *)
 Lemma rw7_verdicts : rt_verdicts rw7_cfg 0 mon0 empty_dump (rt_trace (init rw7_cfg 0) rw7_evs) =
-  [""; ""; ""; ""; ""; ""; ""; ""; ""; ""; "C06:task-failed-before-retry-limit"]%string.
+  [""; ""; ""; ""; ""; ""; ""; ""; ""; ""; ""]%string.
 Proof. vm_compute. reflexivity. Qed.
-Lemma rw7_positions : map snd (rt_positions rw7_cfg 0 mon0 empty_dump (rt_trace (init rw7_cfg 0) rw7_evs)) =
-  [""; ""; ""; ""; ""; ""; ""; ""; ""; ""; "C06:task-failed-before-retry-limit"]%string.
-Proof. vm_compute. reflexivity. Qed.
-(* the drift: after ten events the worker holds task 0 (uncompleted, operations [1]) with t_retry = 2 *)
+(* after ten events the worker holds task 0 (uncompleted, operations [1]) with t_retry = 2; the monitor of the second
+   round stored ([1], 1) *)
 Lemma rw7_drift :
   let s := fst (run (init rw7_cfg 0) (firstn 10 rw7_evs)) in
   k_task (get_worker s rw7_w) = Some 0%nat /\ t_retry (get_task s 0%nat) = 2%nat /\ t_resp (get_task s 0%nat) = None /\ task_opids s 0%nat = [1%nat].
 Proof. vm_compute. repeat split; reflexivity. Qed.
 
-(* ---- the retry bookkeeping in isolation (copies of the corresponding lets of Spec.p_gen), with the candidate rule --------------------- *)
+(* ---- the retry bookkeeping in isolation (copies of the corresponding lets of Spec.p_gen); [track]: with the last rule ---------------- *)
 Definition rt_clear (pre : dump) (e : event) (m : mon) : mon :=
   match e with
   | EStartSync _ a _ =>
@@ -158,7 +157,7 @@ Definition rt_early (cfg : config) (pre post : dump) (rr : option (wref * list n
                     end
                   | _, _ => ""%string
                   end) (d_ops post)).
-(* the candidate rule: follow every entry into the post dump, drop it when the worker no longer holds that task *)
+(* follow every entry into the post dump, drop it when the worker no longer holds that task *)
 Definition rt_track (post : dump) (m : mon) : mon :=
   m <| m_reissue := flat_map (fun x : wref * (list nat * nat) =>
                       match find_dworker post (w_sk (fst x)) (wid (fst x)) with
@@ -181,12 +180,15 @@ Fixpoint rt_run (track : bool) (cfg : config) (m : mon) (pre : dump) (tr : list 
 Definition rt_accepts (track : bool) (cfg : config) (t0 : Z) (evs : list (event * list (nat * wref))) : bool :=
   forallb (fun x => String.eqb (fst x) "" && String.eqb (snd x) "") (rt_run track cfg mon0 empty_dump (rt_trace (init cfg t0) evs)).
 
-(* without the rule the copy says what positions 14 / 15 of p_step_all say; with it rw7_evs is accepted *)
-Lemma rt_faithful_on_rw7 : rt_run false rw7_cfg mon0 empty_dump (rt_trace (init rw7_cfg 0) rw7_evs) =
+(* with the rule the copy says what positions 14 / 15 of the current p_step_all say; without it rw7_evs is rejected *)
+Lemma rt_faithful_on_rw7 : rt_run true rw7_cfg mon0 empty_dump (rt_trace (init rw7_cfg 0) rw7_evs) =
                            rt_positions rw7_cfg 0 mon0 empty_dump (rt_trace (init rw7_cfg 0) rw7_evs).
 Proof. vm_compute. reflexivity. Qed.
 Lemma rt_rw7 : rt_accepts false rw7_cfg 0 rw7_evs = false /\ rt_accepts true rw7_cfg 0 rw7_evs = true.
 Proof. vm_compute. split; reflexivity. Qed.
+Lemma rt_rw7_says : map snd (rt_run false rw7_cfg mon0 empty_dump (rt_trace (init rw7_cfg 0) rw7_evs)) =
+  [""; ""; ""; ""; ""; ""; ""; ""; ""; ""; "C06:task-failed-before-retry-limit"]%string.
+Proof. vm_compute. reflexivity. Qed.
 
 (* ---- bounded evidence: small histories ------------------------------------------------------------------------------------------------------------ *)
 (* after "register, w parks, Execute (learner asks for two retries on failure), told", every sequence of moves:
